@@ -397,19 +397,13 @@ fn build_eq_expr(
     let this = source.this_of(field);
 
     cmp.eq.push_bounds_to(use_bounds, wcb);
-    if cmp.eq.by.is_some() {
-        return Ok(quote!());
-    }
-    if let Some(key) = &cmp.eq.key {
-        return Ok(key.build_eq_checker(this));
+    if cmp.eq.by.is_some() || cmp.eq.key.is_some() {
+        return Ok(build_eq_assertion(cmp, this));
     }
 
     cmp.ord.push_bounds_to(use_bounds, wcb);
-    if cmp.ord.by.is_some() {
-        return Ok(quote!());
-    }
-    if let Some(key) = &cmp.ord.key {
-        return Ok(key.build_eq_checker(this));
+    if cmp.ord.by.is_some() || cmp.ord.key.is_some() {
+        return Ok(build_eq_assertion(cmp, this));
     }
 
     if let Some(bad) = cmp.bad_attr() {
@@ -427,6 +421,20 @@ fn build_eq_expr(
 
     *field_used = true;
     Ok(build_eq_checker(this))
+}
+
+/// The assertion is about what `==` compares: `PartialEq` takes the most specific of
+/// `partial_eq` > `eq` > `partial_ord` > `ord` (a `by` is exempt, a `key` is checked in place of the field).
+fn build_eq_assertion(cmp: &HelperAttributesForCompareOp, this: TokenStream) -> TokenStream {
+    for a in [&cmp.partial_eq, &cmp.eq, &cmp.partial_ord, &cmp.ord] {
+        if a.by.is_some() {
+            return quote!();
+        }
+        if let Some(key) = &a.key {
+            return key.build_eq_checker(this);
+        }
+    }
+    build_eq_checker(this)
 }
 
 fn build_partial_ord_body(
